@@ -69,6 +69,49 @@ PROPS['C09'] = dict(
     unchecked=['lists longer than 5 elements, elements larger than 2 bytes', 'qlist_debug, qqueue/qstack *str/*int convenience wrappers'],
 )
 
+HOSTS = 'Hosts so far: qvector (unbounded contract proofs), qlist/qqueue/qstack/qgrow (closed lists, bounded in length), string/encoding/hash leaf functions; see coverage.groups in the evidence file for the exact list of this run.'
+PROPS['C11'] = dict(
+    technique='CBMC-generated safety obligations (pointer validity, bounds, freed/dead objects, signed overflow, shifts, division) plus memcpy non-overlap and memory-leak obligations inside every contract harness of the host properties',
+    text='Memory safety is the conjunction of the safety obligations CBMC generates for the real code in every contract harness (they hold for ALL inputs admitted by the harness, unbounded where the host harness is) with exactly-sized heap objects for all caller data, the non-overlap obligation of the memcpy contract, and memory-leak obligations on harnesses that release the container. ' + HOSTS,
+    design_ref='DESIGN.md section 3 C11',
+    note='As strong as the host harness: unbounded for the vector and the leaf functions, bounded (stated per group) for linked structures. Alignment, strict aliasing, uninitialised reads and out-of-object pointer arithmetic without dereference are not checked by CBMC.',
+    trusted_base=COMMON_TRUST + [MEM_TRUST, PTHREAD_TRUST],
+    unchecked=['containers whose harnesses are not built yet are not covered (see not_applicable / evidence)', 'data races (C13)'],
+)
+PROPS['C12'] = dict(
+    technique='ownership postconditions in the contract harnesses: stored and returned buffers are fresh objects distinct from the caller buffer / internal buffer (__CPROVER_same_object, object size), byte-equal for an arbitrary ghost index; caller buffer scribbled after insertion',
+    text='For every insertion the container is shown to hold the element bytes in an object different from the caller buffer (which is then overwritten in the harness), and every copying accessor (newmem, pop, toarray, walk copies, encoders, qmemdup) returns a fresh exactly-sized object with exactly the stored bytes. ' + HOSTS,
+    design_ref='DESIGN.md section 3 C12',
+    note='Inherits the bounds of the host harness. Independence after later mutations follows from the frame facts (operations assign/free only objects the container owns) - meta-argument.',
+    trusted_base=COMMON_TRUST + [MEM_TRUST],
+    unchecked=['containers whose harnesses are not built yet'],
+)
+PROPS['C14'] = dict(
+    technique='ghost lock-depth counter maintained by assumed pthread contracts; postcondition depth_on_return == depth_on_entry on every public function, all paths incl. refusal and allocation failure (CBMC malloc may fail)',
+    text='Every public function of the covered lockable containers is verified, from every state of its harness and under nondeterministic allocation failure, to return with the ghost lock depth it was entered with (entry depth 0..2: the caller may already hold the recursive lock). ' + HOSTS,
+    design_ref='DESIGN.md section 3 C14',
+    note='Path property: unbounded for the vector, closed structures for lists. pthread semantics assumed (trylock succeeds, recursive mutex); qlog not covered.',
+    trusted_base=COMMON_TRUST + [PTHREAD_TRUST],
+    unchecked=['qlog', 'containers whose harnesses are not built yet'],
+)
+PROPS['C15'] = dict(
+    technique='nondeterministic allocator failure at every allocation site inside one symbolic run (CBMC malloc-may-fail); postcondition: failure reported => observable state unchanged and invariant holds; memory-leak obligations',
+    text='Every allocating operation of the covered containers is verified with each malloc/calloc/realloc call free to fail independently: the call either succeeds with the normal contract or reports failure (ENOMEM) with contents, counts and invariant exactly as before; constructors leak nothing on failure. ' + HOSTS,
+    design_ref='DESIGN.md section 3 C15',
+    note='Inherits the bounds of the host harness; all failure combinations of the allocations inside one call are covered by the symbolic run.',
+    trusted_base=COMMON_TRUST + [MEM_TRUST],
+    unchecked=['containers whose harnesses are not built yet'],
+)
+
+PROPS['C05'] = dict(
+    technique='CBMC bounded contract checks on closed hash tables: every operation from every table of a constant range/size with an uninterpreted hash function, compared with the ideal map for every key of the alphabet by walking the real chains',
+    text='For every table with range 1..3 and 0..4 entries over an alphabet of four keys (hash values uninterpreted, so keys sharing a chain, equal hashes with different names and head/middle/tail positions all occur) put/putstr, get/getstr, remove, size, clear and the getnext walk are shown to realise exactly the ideal-map transition: last value and length per key, removal of exactly that key, exact count, each key once in a walk; the representation invariant (node in the chain of its hash, names distinct, chains acyclic, num exact) is re-established by every operation, so the history quantifier is discharged by induction over operations.',
+    design_ref='DESIGN.md section 3 C05',
+    note='Bounded stand-in (range <= 3, <= 4 entries, one-character keys, values <= 2 bytes); unbounded in history (meta-argument). The hash function is an assumed deterministic function of the key (its own correctness is C18). putint/getint/putstrf (snprintf/atoll/vsnprintf) and qhashtbl_debug are outside the claim.',
+    trusted_base=COMMON_TRUST + [PTHREAD_TRUST, 'strcmp/strdup/strlen/memcpy on tiny constant-size strings: CBMC library models', 'qhashmurmur3_32 replaced by an uninterpreted deterministic function inside this harness'],
+    unchecked=['ranges above 3, more than 4 entries, longer keys', 'putint/getint/putstrf formatting'],
+)
+
 NOT_APPLICABLE = {
     'C20': 'needs a second, reference parser as specification and a proof that two tokenisers agree on every document; CBMC has no usable model of the fgets/vsnprintf/realloc-based code and a bounded stand-in (~10 symbolic bytes) cannot hold one nested section, so nothing the property is about would be decided (DESIGN.md section 4)',
 }
